@@ -32,7 +32,7 @@ enum { S_WALK = 0, S_PCT = 1, S_POS = 2, S_TAPE = 3 };
 enum { E_WAKE = 0, E_START = 1, E_FIRSTPC = 2, E_SBLOAD = 3, E_CONFLICT = 4, E_RMW = 5, E_FWAKE = 6, E_NCLS = 7 };
 static const char* ev_names[E_NCLS] = { "wake", "start", "firstpc", "sbload", "conflict", "rmw", "fwake" };
 
-struct SB { void* addr; unsigned sz; unsigned char val[8]; int age; };
+struct SB { void* addr; unsigned sz; unsigned char val[8]; int age; uint64_t born; };
 struct Th {
     int id = 0; int st = RUN; std::atomic<int> go{0};
     const void* waddr = nullptr; int jt = -1; const std::function<bool()>* pred = nullptr;
@@ -60,12 +60,13 @@ extern "C" { int vs_tso_on = 0; }
 static int strat = S_WALK; static unsigned walk_p = 8; /* switch probability = 1/walk_p */
 static int pct_d = 2; static long est_steps = 3000;
 static uint64_t rng = 88172645463325252ull, rng2 = 0x9E3779B97F4A7C15ull;
-static int tso_window = 4; static unsigned tso_flushp = 16; /* random flush: 1/tso_flushp per point */
+static int tso_window = 4; static unsigned tso_flushp = 16; static long tso_gwindow = 200; static long total_sb = 0;   /* gwindow: a buffered store retires after that many global decisions even if its owner does not run (a real store buffer drains on its own) */ /* random flush: 1/tso_flushp per point */
 static StallSpec stalls[4]; static int nstall = 0;
 static long step_budget = 2000000; static long fix_threshold = 20000;
+static uint64_t decisions = 0;
 static std::vector<int> tape; static size_t tape_pos = 0; static bool record = false;
 static std::vector<int> rec;
-static long pct_change[8]; static int pct_low = 0; static long consec = 0; static uint64_t decisions = 0;
+static long pct_change[8]; static int pct_low = 0; static long consec = 0;
 
 // statistics
 static uint64_t steps = 0, switches = 0, lclock = 0, write_epoch = 1;
@@ -168,7 +169,7 @@ static void flush_one(Th* t) {
     }
     if (changed) write_epoch++;
     for (int i = 1; i < t->nsb; i++) t->sb[i - 1] = t->sb[i];
-    t->nsb--;
+    t->nsb--; total_sb--;
 }
 extern "C" void vs_tso_drain(void) { if (!me) return; while (me->nsb) flush_one(me); }
 extern "C" void vs_tso_drain_obj(const void* addr, unsigned sz) {
@@ -181,7 +182,7 @@ extern "C" int vs_tso_store(void* addr, const void* val, unsigned sz) {
     if (sz != 1 && sz != 2 && sz != 4 && sz != 8) return 0;
     vs_point(addr, VSK_STORE);
     if (me->nsb == 64) flush_one(me);
-    SB& e = me->sb[me->nsb++]; e.addr = addr; e.sz = sz; memcpy(e.val, val, sz); e.age = 0;
+    SB& e = me->sb[me->nsb++]; e.addr = addr; e.sz = sz; memcpy(e.val, val, sz); e.age = 0; e.born = decisions; total_sb++;
     return 1;
 }
 extern "C" int vs_tso_load(const void* addr, void* out_, unsigned sz) {
@@ -221,6 +222,7 @@ static int pick(int kind) {
     // global fairness: a runnable, un-stalled thread that has not run for 4000 decisions goes next (priority strategies
     // can otherwise starve a non-spinning thread behind several spinners for the whole step budget)
     ++decisions; if (me) me->last_ran = decisions;
+    if (total_sb > 0 && tso_gwindow > 0) for (int i = 0; i < nth; i++) while (ths[i]->nsb && decisions - ths[i]->sb[0].born > (uint64_t)tso_gwindow) flush_one(ths[i]);
     if (strat != S_TAPE && tape_pos >= tape.size()) for (int i = 0; i < n; i++) if (decisions - ths[el[i]]->last_ran > 4000 && (!me || el[i] != me->id)) { chosen = el[i]; break; }
     if (chosen >= 0) { if (record) rec.push_back(chosen); return chosen; }
     if (strat == S_TAPE || tape_pos < tape.size()) {
@@ -470,7 +472,7 @@ extern "C" void vs_begin(const char* line) {
     rng = seed * 2654435761u + 88172645463325252ull; rng2 = seed * 0x9E3779B97F4A7C15ull + 12345; if (!rng) rng = 1; if (!rng2) rng2 = 1;
     for (int i = 0; i < 8; i++) { rnd(); rnd2(); }
     vs_tso_on = kv_is(line, "mem", "tso", false) ? 1 : 0;
-    tso_window = (int)kv_long(line, "w", 4); tso_flushp = (unsigned)kv_long(line, "fp", 16);
+    tso_window = (int)kv_long(line, "w", 4); tso_flushp = (unsigned)kv_long(line, "fp", 16); tso_gwindow = kv_long(line, "gw", 200);
     step_budget = kv_long(line, "budget", 2000000); fix_threshold = kv_long(line, "fix", 20000);
     record = kv_long(line, "record", 0) != 0;
     // the trace ring always exists (mmap, not heap) and is always filled; it is dumped on a non-OK verdict when asked for
